@@ -1,95 +1,50 @@
-"""Translator unit `connect`: the CONNECT-TIME WIRING of the emulator's bay.
+"""Translator unit `sortc`: src/emu/sort.c (the sorted-rows module of the breakdown view).
 
-Emits coq/Gen/Connect_gen.v, statement by statement and in the order of the C, with the stage-C translator core
-(_stagec.py, imported UNCHANGED), over the hand-written prelude coq/Emu/ConnectPre.v:
+Emits coq/Gen/SortC_gen.v: sort_replace, sort_cb_input, sort_init, statement by statement and in the order of the C, with
+the stage-C translator core (_stagec.py, imported UNCHANGED) over the hand-written prelude coq/Emu/SortCPre.v.
+Primitives (hand-written in SortCPre.v): the int64_t arrays behind sort->values / sort->sorted (reads and writes out of
+bounds trap), chan_read / chan_set on the input and output channels, value_int64 / value_is_equal, memcpy of whole
+arrays, qsort(.., cmp_int64) = SortDefs.isort (cmp_int64 itself is tied by unit cmp_sortmod), die() = E_DIE, calloc,
+chan_init / chan_prop_set / bay_register for the outputs.  `G` (translate/gen.py) is injected by the plug-in loader.
 
-  src/emu/track.c         track_init, track_get_output, track_set_select, track_set_input, track_th_input_chan,
-                          track_connect_thread
-  src/emu/thread.c        thread_init_end, thread_connect
-  src/emu/cpu.c           cpu_init_end, cpu_connect, cpu_get_th_chan
-  src/emu/pv/pvt.c        pvt_get_prv, pvt_get_pcf
-  src/emu/model_thread.c  init_chan, init_thread, model_thread_create, model_thread_connect
-  src/emu/model_cpu.c     get_model_cpu, init_chan (as cpu_init_chan), init_cpu, model_cpu_create, connect_cpu,
-                          model_cpu_connect
-  src/emu/ovni/mark.c     create_thread_chan, init_cpu, connect_thread_prv, connect_thread, connect_cpu_prv, connect_cpu,
-                          mark_connect (all prefixed mark_)
-  src/emu/nosv/breakdown.c  create_cpu, connect_cpu (prefixed bd_)
-  src/emu/model_pvt.c     connect_cpu_prv, model_pvt_connect_cpu, connect_thread_prv, model_pvt_connect_thread
-
-Primitives (hand-written in ConnectPre.v, acting on a BayDefs bay under construction): chan_init, chan_prop_set,
-bay_register, mux_init, mux_set_input (mux.c: not translatable, see mux.py), prv_register (the bay part: the emit
-callback with its row / type / flags), calloc, extend_set / extend_get, recorder_find_pvt, init_pcf (PCF only),
-vsnprintf (the name of a track: length check only).  `G` (translate/gen.py) is injected by the plug-in loader.
-
-Additions of this unit to the subset of the core (wrappers, fail-closed; the shared core is not edited); 1-6 and 9-10
-are those of emuloop.py:
-  1. (emuloop) three-way functions; 2. int-valued side-effecting primitives bound to a local; 3./3b. remembered
-     failures / failure blocks with a procedure; 4. `return x` of a status local;
-  5. the two loop forms, generalised: `for (int i = 0; i < E; i++)` with E any side-effect free integer expression whose
-     variables are not assigned in the body (evaluated once before the loop: `for_range 0 E`), and
-     `for (struct T *p = E; p; p = p->LINK)` for LINK one of hh.next / gnext / next (`for_<LINK>_T`); loops may be nested;
-  6. subscript of an array of pointers (`ixp_<ptr>`), and of an int array reached through a POINTER (const int *,
-     const long *): `(ix_<ptr type> base i)`;
-  7. memset(p, 0, sizeof(*p));  8. function-pointer fields; a function used as a value: `fn_<name>`;
-  9. parenthesised bind_args (core defect);
- 10. `&p[i]` with p a pointer (variable or field, not an inline array): `(at_<ptr type> p i)`;
- 11. `T *x = calloc(n, size)` / `p->f = calloc(n, size)` (allocation converted from void *): `bind (calloc_<ptr type> n size)`;
-     sizeof(type) / sizeof(expr) as an argument: the constant `(sizeof_ N)` is NOT interpreted (N = 0);
- 12. implicit conversions void * <-> pointer to a known struct: `<ptr>_of_void` / `void_of_<ptr>` (as in mux.py);
- 13. string literals: Coq strings (ptr_str = option string);
- 14. calls of variadic functions (track_init, chan_init): the arguments beyond the named parameters are dropped after
-     checking that they have no side effect; `va_list ap; va_start(ap, fmt); ... va_end(ap);` are dropped; `ap` as an
-     argument is the constant `va_args`; ARRAYLEN(x) = sizeof(x)/sizeof(x[0]): the constant `c_arraylen`;
- 18. C locals named like Gallina constants the generated terms use (tt) are renamed (tt_);
- 17. getters are named get_<root struct>__<fields> (double underscore: `th->spec->chan` and `spec->chan` would collide);
- 16. a file-scope constant table (track_suffix, chan_type, prv_flags, chan_name, chan_fmt): the prelude constant
-     `g_<file>_<name>` (the values of chan_type / prv_flags come from Gen/Pv_gen.v th_sys / cpu_sys, dumped by unit pv);
- 15. `if (f(..)) { log; return -1; }` with f an int-status function (no `!= 0`): as `!= 0`.
+Additions of this unit to the subset of the core (wrappers, fail-closed; the shared core is not edited).  Those of
+emuloop.py / connect.py (loops over ranges with any side-effect free bound, calloc into locals and fields, void *
+conversions, string literals, variadic calls, memset, parenthesised bind_args, ...) plus:
+  A. `for (; C; STEP) BODY` (no initialisation; C side-effect free; STEP is `x++` or `x--` on an int local; BODY without
+     break / return): `bind (for_while ACC (fun ACC => C as M bool, with its NULL / bounds checks)
+     (fun ACC => BODY; STEP; ret ACC)) (fun ACC => rest)`; ACC = the int locals assigned in BODY or STEP.  for_while is a
+     BOUNDED iteration (the prelude takes the bound from the state; exhausting it is the error E_FUEL);
+  B. `p[i]` with p an int64_t pointer (parameter or field): the state-dependent read `(rd_ptr_i64 sx st p i)` guarded by
+     `(inb_ptr_i64 sx st p i)` (out of bounds = E_TRAP, with the short-circuit of && respected); `p[i] = e`: `(wr_ptr_i64 p
+     (fun sx st => i) (fun sx st => e))`;
+  C. `a / K` with K a non-zero integer literal: Z.quot (C division truncates);
+  D. `die(..)`: `fail E_DIE`;
+  E. sizeof(int64_t) = 8 (other sizeof stay uninterpreted).
 """
 import importlib.util
 import os
 import re
 
-_spec = importlib.util.spec_from_file_location("ovni_verif_stagec_connect", os.path.join(os.path.dirname(os.path.abspath(__file__)), "_stagec.py"))
+_spec = importlib.util.spec_from_file_location("ovni_verif_stagec_sortc", os.path.join(os.path.dirname(os.path.abspath(__file__)), "_stagec.py"))
 S = importlib.util.module_from_spec(_spec)
 _spec.loader.exec_module(S)
 
-UNITS = [
-    ("src/emu/pv/pvt.c", [("pvt_get_prv", "value"), ("pvt_get_pcf", "value")]),
-    ("src/emu/track.c", [("track_init", "action"), ("track_get_output", "value"), ("track_set_select", "action"),
-                         ("track_set_input", "action"), ("track_th_input_chan", "action"), ("track_connect_thread", "action")]),
-    ("src/emu/thread.c", [("thread_init_end", "action"), ("thread_connect", "action")]),
-    ("src/emu/cpu.c", [("cpu_init_end", "action"), ("cpu_connect", "action"), ("cpu_get_th_chan", "value")]),
-    ("src/emu/model_pvt.c", [("connect_cpu_prv", "action"), ("model_pvt_connect_cpu", "action"),
-                             ("connect_thread_prv", "action"), ("model_pvt_connect_thread", "action")]),
-    ("src/emu/model_thread.c", [("init_chan", "action"), ("init_thread", "action"), ("model_thread_create", "action"),
-                                ("model_thread_connect", "action")]),
-    ("src/emu/model_cpu.c", [("get_model_cpu", "value"), ("init_chan", "action"), ("init_cpu", "action"), ("model_cpu_create", "action"),
-                             ("connect_cpu", "action"), ("model_cpu_connect", "action")]),
-]
-UNITS.append(("src/emu/ovni/mark.c", [("create_thread_chan", "action"), ("init_cpu", "action"), ("connect_thread_prv", "action"),
-                                     ("connect_thread", "action"), ("connect_cpu_prv", "action"), ("connect_cpu", "action"),
-                                     ("mark_connect", "action")]))
-UNITS.append(("src/emu/nosv/breakdown.c", [("create_cpu", "action"), ("connect_cpu", "action")]))
-PREFIXES = {"src/emu/model_cpu.c": "cpu_", "src/emu/ovni/mark.c": "mark_", "src/emu/nosv/breakdown.c": "bd_"}
-# untranslated static functions whose name clashes across files: primitive name per file
-RENAME_PRIM = {("src/emu/ovni/mark.c", "init_pcf"): "mark_init_pcf"}
-if os.environ.get("CONNECT_FILES"):
-    keep = set(os.environ["CONNECT_FILES"].split(","))
-    UNITS = [u for u in UNITS if os.path.basename(u[0]) in keep]
+UNITS = [("src/emu/sort.c", [("sort_replace", "proc"), ("sort_cb_input", "action"), ("sort_init", "action")])]
+PREFIXES = {}
 
 ZFUNCS = set()
-ZPRIM = {"vsnprintf"}
+ZPRIM = set()
 
 _orig_e_val = S.GT.e_val
 _orig_stmts = S.GT.stmts
 _orig_function = S.GT.function
 
 
-VARIADIC = {"track_init": 5, "chan_init": 3}
+VARIADIC = {"chan_init": 3}
 ALLOC_FNS = {"calloc"}
+ARRAY_PTRS = {"int64_t *", "long *"}
 # file-scope constant tables (only used to build names): the constant g_<name> of the prelude
-GLOBALS = {"track_suffix", "chan_type", "prv_flags", "chan_name", "chan_fmt"}
+GLOBALS = set()
 
 
 def _is_alloc_conv(n):
@@ -111,7 +66,24 @@ def _e_val(self, n, env):
             self.bad(n, "string literal with an escape sequence")
         return S.Val('(Some "%s"%%string)' % body.replace('"', '""'))
     if k == "UnaryExprOrTypeTraitExpr" and n.get("name") == "sizeof":
+        at = S._norm_struct(n.get("argType", {}).get("qualType", ""))
+        if at in ("int64_t", "long"):
+            return S.Val("(8)")
         return S.Val("(sizeof_ 0)")
+    if k == "BinaryOperator" and n.get("opcode") == "/":
+        x, y = n["inner"]
+        d = _strip_all(y)
+        if d.get("kind") == "IntegerLiteral" and int(d["value"]) != 0 and self.ity(n) is not None and not self.ity(n).startswith("u"):
+            a = self.e_val(x, env)
+            return S.Val("(Z.quot %s (%s))" % (a.t, d["value"]), a.safe, a.dep)
+    if k == "ArraySubscriptExpr":
+        base, idx = n["inner"]
+        b0 = _strip_all(base)
+        if "[" not in S._qt(b0) and S._norm_ptr(S._qt(b0)) in ARRAY_PTRS:
+            pt = S.PTR[S._norm_ptr(S._qt(b0))][0]
+            b, i = self.e_val(base, env), self.e_val(idx, env)
+            safe = S.s_and(S.s_and(b.safe, i.safe), "(inb_%s sx st %s %s)" % (pt, b.t, i.t))
+            return S.Val("(rd_%s sx st %s %s)" % (pt, b.t, i.t), safe, True)
     if k == "BinaryOperator" and n.get("opcode") == "/":
         x, y = (_strip_all(c) for c in n["inner"])
         if x.get("kind") == "UnaryExprOrTypeTraitExpr" and y.get("kind") == "UnaryExprOrTypeTraitExpr":
@@ -133,19 +105,6 @@ def _e_val(self, n, env):
             b, i = self.e_val(base, env), self.e_val(idx, env)
             return S.Val("(ix_%s %s %s)" % (S.PTR[bq][0], b.t, i.t), S.s_and(b.safe, i.safe), b.dep or i.dep)
     if k == "UnaryOperator" and n.get("opcode") == "&":
-        m0 = _strip_all(n["inner"][0])
-        if m0.get("kind") == "MemberExpr" and not m0.get("isArrow"):
-            el = _strip_all(m0["inner"][0])
-            if el.get("kind") == "ArraySubscriptExpr":
-                base, idx = el["inner"]
-                b0 = _strip_all(base)
-                st = S._norm_struct(S._qt(el))
-                if "[" not in S._qt(b0) and S._norm_ptr(S._qt(b0)) in S.PTR and re.match(r"^struct \w+$", st):
-                    # &p[i].f with p a POINTER to structs: the address of member f of element i
-                    b, i = self.e_val(base, env), self.e_val(idx, env)
-                    self.gtype(n)
-                    return S.Val("(addr_%s_%s (at_%s %s %s))" % (st.split()[1], m0["name"], S.PTR[S._norm_ptr(S._qt(b0))][0], b.t, i.t),
-                                 S.s_and(b.safe, i.safe), b.dep or i.dep)
         m = _strip_all(n["inner"][0])
         if m.get("kind") == "ArraySubscriptExpr":
             base, idx = m["inner"]
@@ -219,32 +178,15 @@ def _loop(self, s, rest, env, kind):
     init, cond, inc, body = parts[0], parts[2], parts[3], parts[4]
     if kind != "action":
         self.bad(s, "loop in a function that is not an int-status function")
-    if init.get("kind") == "BinaryOperator" and init.get("opcode") == "=" and \
-            _strip_all(init["inner"][0]).get("kind") == "DeclRefExpr" and \
-            _strip_all(init["inner"][0])["referencedDecl"]["name"] in env and \
-            not env[_strip_all(init["inner"][0])["referencedDecl"]["name"]]["init"]:
-        # `struct T *p; for (p = E; p; p = p->hh.next)`: p declared just before, never read outside the loops
-        lv = _strip_all(init["inner"][0])
-        vname = lv["referencedDecl"]["name"]
-        vd = {"name": vname, "type": {"qualType": env[vname]["cty"]}, "kind": "VarDecl"}
-        vinit = [init["inner"][1]]
-        env = dict(env)
-        del env[vname]
-        for x in _walk({"kind": "CompoundStmt", "inner": rest}):
-            if x.get("kind") == "DeclRefExpr" and x.get("referencedDecl", {}).get("name") == vname:
-                pass        # later loops re-initialise it (checked there: it is again uninitialised in their env)
-        reuse = vname
-    else:
-        reuse = None
-        if init.get("kind") != "DeclStmt" or len(init["inner"]) != 1 or init["inner"][0]["kind"] != "VarDecl":
-            self.bad(s, "loop initialisation is not one declaration")
-        vd = init["inner"][0]
-        vname = vd["name"]
-        vinit = [c for c in vd.get("inner", []) if c.get("kind") not in ("FullComment",)]
-        if not vinit:
-            self.bad(s, "loop variable without initialiser")
-        if vname in env:
-            self.bad(s, "loop variable shadows a local")
+    if init.get("kind") != "DeclStmt" or len(init["inner"]) != 1 or init["inner"][0]["kind"] != "VarDecl":
+        self.bad(s, "loop initialisation is not one declaration")
+    vd = init["inner"][0]
+    vname = vd["name"]
+    vinit = [c for c in vd.get("inner", []) if c.get("kind") not in ("FullComment",)]
+    if not vinit:
+        self.bad(s, "loop variable without initialiser")
+    if vname in env:
+        self.bad(s, "loop variable shadows a local")
     for x in _walk(body):
         if x.get("kind") in ("BreakStmt", "GotoStmt", "WhileStmt", "DoStmt") and not (x.get("kind") == "DoStmt" and self.macro_of(x)[0] in S.MACRO_IGNORED):
             self.bad(x, "statement not allowed inside a loop body")
@@ -273,7 +215,7 @@ def _loop(self, s, rest, env, kind):
     pre_bind = ""
     if self.ity(vd) is not None:
         # for (int i = 0; i < K; i++)
-        lo = S._strip(vinit[0])
+        lo = _strip_all(vinit[0])
         if lo.get("kind") != "IntegerLiteral":
             self.bad(s, "loop lower bound is not a constant")
         if ci.get("kind") != "BinaryOperator" or ci.get("opcode") != "<":
@@ -324,12 +266,48 @@ def _loop(self, s, rest, env, kind):
         head = "for_%s_%s %s %s (fun %s %s =>" % (lname, st, self.fn_of_state(e0.t), acct, g, accp)
         pre_safe = e0.safe
     env3 = dict(env)
-    if reuse is not None:
-        env3[reuse] = {"g": self.gname(reuse), "cty": vd["type"]["qualType"], "init": False}
     term = "bind (%s\n%s))\n(fun %s =>\n%s)" % (head, bodyt, accp, self.stmts(rest, env3, kind))
     if pre_bind:
         term = pre_bind + term + ")"
     return self.needed(pre_safe, term)
+
+
+def _while(self, s, rest, env, kind):
+    """for (; C; x++ / x--) BODY"""
+    parts = s["inner"]
+    cond, inc, body = parts[2], parts[3], parts[4]
+    if not cond.get("kind") or not inc.get("kind"):
+        self.bad(s, "loop without condition or step")
+    for x in _walk(body):
+        if x.get("kind") in ("BreakStmt", "GotoStmt", "WhileStmt", "ReturnStmt", "ContinueStmt", "ForStmt"):
+            self.bad(x, "statement not allowed inside the body of a conditional loop")
+        if x.get("kind") == "DoStmt" and self.macro_of(x)[0] not in S.MACRO_IGNORED:
+            self.bad(x, "statement not allowed inside the body of a conditional loop")
+    it = _strip_all(inc)
+    if it.get("kind") != "UnaryOperator" or it.get("opcode") not in ("++", "--"):
+        self.bad(s, "loop step is not x++ / x--")
+    sv = _strip_all(it["inner"][0])
+    if sv.get("kind") != "DeclRefExpr" or sv["referencedDecl"]["name"] not in env or self.ity(sv) is None:
+        self.bad(s, "loop step is not x++ / x-- on an integer local")
+    self.pure_tree(cond)
+    for x in _walk(cond):
+        if x.get("kind") == "CallExpr":
+            self.bad(s, "loop condition with a call")
+    acc = _assigned_locals(self, {"kind": "CompoundStmt", "inner": [body, inc]}, env)
+    for a in acc:
+        if self.ity({"type": {"qualType": env[a]["cty"]}}) is None or not env[a]["init"]:
+            self.bad(s, "loop-carried local %s is not an initialised integer" % a)
+    accg = [env[a]["g"] for a in acc]
+    acct = "(%s)" % ", ".join(accg) if len(accg) > 1 else accg[0]
+    accp = "'(%s)" % ", ".join(accg) if len(accg) > 1 else accg[0]
+    c = self.e_bool(cond, env)
+    condt = self.needed(c.safe, "eval %s" % self.fn_of_state(c.t))
+    self.loop_acc = getattr(self, "loop_acc", []) + [acct]
+    step = dict(it)
+    bodyt = self.stmts([body, step, {"kind": "ContinueStmt", "synthetic": True}], dict(env), kind)
+    self.loop_acc.pop()
+    return "bind (for_while %s (fun %s =>\n%s)\n(fun %s =>\n%s))\n(fun %s =>\n%s)" % (
+        acct, accp, condt, accp, bodyt, accp, self.stmts(rest, dict(env), kind))
 
 
 def _stmts(self, ss, env, kind):
@@ -383,6 +361,26 @@ def _stmts(self, ss, env, kind):
                     self.is_fail_block(s["inner"][1], kind):
                 # if (f(..)) { log; return -1; }
                 return "bind_ %s\n(%s)" % (self.call_action(c0, env), self.stmts(rest, env, kind))
+        if k == "ForStmt" and not s["inner"][0].get("kind"):
+            return _while(self, s, rest, env, kind)
+        if k == "CallExpr" and S._callee(s) in ("die", "vdie"):
+            for x in s["inner"][1:]:
+                self.pure_tree(x)
+            return "fail E_DIE"
+        if k == "DoStmt":
+            nm, _a = self.macro_of(s)
+            if nm == "die":
+                return "fail E_DIE"
+        if k == "BinaryOperator" and s.get("opcode") == "=":
+            t = _strip_all(s["inner"][0])
+            if t.get("kind") == "ArraySubscriptExpr":
+                base, idx = t["inner"]
+                b0 = _strip_all(base)
+                if "[" not in S._qt(b0) and S._norm_ptr(S._qt(b0)) in ARRAY_PTRS:
+                    pt = S.PTR[S._norm_ptr(S._qt(b0))][0]
+                    b, i, v = self.e_val(base, env), self.e_val(idx, env), self.e_val(s["inner"][1], env)
+                    return self.needed(S.s_and(S.s_and(b.safe, i.safe), v.safe), "bind_ (wr_%s %s %s %s)\n(%s)" % (
+                        pt, self.fn_of_state(b.t), self.fn_of_state(i.t), self.fn_of_state(v.t), self.stmts(rest, env, kind)))
         if k == "ContinueStmt":
             if not getattr(self, "loop_acc", None):
                 self.bad(s, "continue outside a loop")
@@ -493,17 +491,8 @@ def _member(self, n, env):
 _orig_call_action = S.GT.call_action
 
 
-def _orig_call_action_renamed(self, n, env, newname):
-    args = [self.e_val(a, env) for a in n["inner"][1:]]
-    return self.bind_args(args, lambda ts: "(%s %s)" % (newname, " ".join(ts)))
-
-
-
 def _call_action(self, n, env):
     name = S._callee(n)
-    if (self.relpath, name) in RENAME_PRIM:
-        t = _orig_call_action_renamed(self, n, env, RENAME_PRIM[(self.relpath, name)])
-        return t
     if name in VARIADIC and len(n["inner"]) - 1 > VARIADIC[name]:
         for x in n["inner"][1 + VARIADIC[name]:]:
             self.pure_tree(x)
@@ -561,71 +550,32 @@ def gen(work):
     S.GT.bind_args = _bind_args
     S.GT.call_action = _call_action
     S.GT.member = _member
-    _g0 = S.GT.gname
-    S.GT.gname = lambda self, c: (c + "_") if c in ("tt", "ret", "unit", "Some", "None") else _g0(self, c)   # C locals that would shadow Gallina constants
-    S.SX_T, S.ST_T = "cenv", "cstate"
+    S.SX_T, S.ST_T = "senv", "sstate"
     S.PTR = {
-        "struct emu *": ("ptr_emu", False),
-        "struct system *": ("ptr_system", True),
+        "struct sort *": ("ptr_sort", True),
+        "struct sort_input *": ("ptr_sinput", True),
         "struct bay *": ("ptr_bay", True),
         "struct chan *": ("ptr_chan", True),
-        "struct track *": ("ptr_track", True),
-        "struct mux *": ("ptr_mux", True),
-        "struct thread *": ("ptr_sthread", True),
-        "struct cpu *": ("ptr_scpu", True),
-        "struct model_thread *": ("ptr_mthread", True),
-        "struct model_cpu *": ("ptr_mcpu", True),
-        "struct model_thread_spec *": ("ptr_thspec", True),
-        "struct model_cpu_spec *": ("ptr_cpuspec", True),
-        "struct model_chan_spec *": ("ptr_chspec", True),
-        "struct model_pvt_spec *": ("ptr_pvtspec", True),
-        "struct model_spec *": ("ptr_mspec", True),
-        "struct extend *": ("ptr_extend", True),
-        "struct loom *": ("ptr_loom", True),
-        "struct ovni_emu *": ("ptr_oemu", True),
-        "struct ovni_mark_emu *": ("ptr_memu", True),
-        "struct ovni_thread *": ("ptr_othread", True),
-        "struct ovni_mark_thread *": ("ptr_mkth", True),
-        "struct ovni_cpu *": ("ptr_ocpu", True),
-        "struct ovni_mark_cpu *": ("ptr_mkcpu", True),
-        "struct mark_type *": ("ptr_mtype", True),
-        "struct nosv_cpu *": ("ptr_ncpu", True),
-        "struct nosv_breakdown_cpu *": ("ptr_bcpu", True),
         "struct value *": ("ptr_value", True),
-        "JSON_Object *": ("ptr_json", True),
-        "struct recorder *": ("ptr_recorder", True),
-        "struct pvt *": ("ptr_pvt", True),
-        "struct prv *": ("ptr_prv", True),
-        "struct pcf *": ("ptr_pcf", True),
-        "mux_select_func_t": ("ptr_fn", True),
+        "int64_t *": ("ptr_i64", True),
+        "long *": ("ptr_i64", True),
         "void *": ("ptr_void", True),
         "char *": ("ptr_str", True),
-        "char * *": ("ptr_strs", True),
-        "int *": ("ptr_ints", True),
-        "long *": ("ptr_ints", True),
-        "va_list": ("va_list_t", False),
-        "__builtin_va_list": ("va_list_t", False),
     }
     S.STRUCTS = {"struct value": "cvalue"}
     S.NONNULL_LINK = set()
-    S.PRIM_ACTION = {"bay_register", "mux_init", "mux_set_input", "prv_register", "init_pcf", "set_name", "mark_init_pcf", "mux_add_reselect"}
-    S.PRIM_VALUE = {"extend_get", "recorder_find_pvt", "value_int64"}
+    S.PRIM_ACTION = {"chan_set", "bay_register"}
+    S.PRIM_VALUE = {"value_int64", "value_is_equal"}
     S.PRIM_ALLOC = set()
-    S.PRIM_PROC = {"chan_init", "chan_prop_set", "extend_set", "mux_set_default"}
-    S.OUT_ACTION = {}
-    S.BYREF_READ = set()
+    S.PRIM_PROC = {"memcpy", "qsort", "chan_init", "chan_prop_set"}
+    S.OUT_ACTION = {"chan_read": 1}
+    S.BYREF_READ = {"value_is_equal"}
     S.INDIRECT_CALLS = {}
     S.MACRO_PRIM = set()
     ctext, defs = S.translate_files(work, UNITS, prefixes=PREFIXES)
-    # the two state constants the (untranslated) select functions of nosv/breakdown.c compare with
-    _inc, _ver = G.ovni_h_dir(work)
-    _path = os.path.join(G.REPO, "src/emu/nosv/breakdown.c")
-    _vals = G.cg.probe_consts('#include "%s"\n' % _path, G.incs(_inc) + [os.path.dirname(_path)],
-                              {"c_ST_TASK_BODY": "ST_TASK_BODY", "c_ST_PROGRESSING": "ST_PROGRESSING"}, work)
-    ctext += "".join("Definition %s : Z := (%s).\n" % (k2, _vals[k2]) for k2 in sorted(_vals))
-    text = (G.HEADER % "src/emu/track.c, model_thread.c, model_cpu.c, model_pvt.c, cpu.c, pv/pvt.c (unit connect)") + \
+    text = (G.HEADER % "src/emu/sort.c (unit sortc)") + \
         "From Coq Require Import ZArith List Bool String.\n" \
-        "From OV Require Import Base.CInt Emu.ConnectPre.\n" \
+        "From OV Require Import Base.CInt Emu.SortCPre.\n" \
         "Import ListNotations.\nLocal Open Scope Z_scope.\n\n" \
         "(* enum constants, evaluated by the compiler *)\n" + ctext + "\n" + "\n".join(defs)
-    return {"Connect_gen.v": text}
+    return {"SortC_gen.v": text}
